@@ -83,6 +83,13 @@ type awaitCall struct {
 	fired    bool
 }
 
+// recoverRet logs a panic of library code as the result of call id.
+func recoverRet(log *hist.Log, id int) {
+	if r := recover(); r != nil {
+		log.Ret(id, "panic")
+	}
+}
+
 func cpuTime() time.Duration {
 	var ru syscall.Rusage
 	if err := syscall.Getrusage(syscall.RUSAGE_SELF, &ru); err != nil {
@@ -161,6 +168,7 @@ func exec(script []string, opt comp.Options) comp.Result {
 			id := inv("set %d %d %s", p, nid+1, f[2])
 			pr := proms[p]
 			run(f[0] == "aset", func() {
+				defer recoverRet(log, id)
 				r := pr.SetResult(id+1, e)
 				log.Ret(id, "set %v", r)
 			})
@@ -313,6 +321,7 @@ func exec(script []string, opt comp.Options) comp.Result {
 			}
 			nRepl++
 			run(f[0] == "acsetp", func() {
+				defer recoverRet(log, id)
 				ctr.SetPromise(pl)
 				log.Ret(id, "csetp")
 			})
@@ -327,6 +336,7 @@ func exec(script []string, opt comp.Options) comp.Result {
 			id := inv("cres %d %s", nid+1, f[1])
 			nRepl++
 			run(f[0] == "acres", func() {
+				defer recoverRet(log, id)
 				r := ctr.SetResult(id+1, e)
 				log.Ret(id, "cres %v", r)
 			})
